@@ -122,6 +122,150 @@ fn some_empty(li: LanguageIdentifier) -> LanguageIdentifier {
     }
 }
 
+/// The value `x` rebuilt along route `k` through the safe API (every route is the identity on the abstract value).
+fn route_value(x: &Locale, k: u32) -> Result<Locale, &'static str> {
+    let vs: Vec<Variant> = x.id.variants().cloned().collect();
+    let mut y = x.clone();
+    match k {
+        0 => y.id.set_variants(&vs),
+        1 => {
+            y.id.clear_variants();
+            y.id.set_variants(&vs);
+        }
+        2 => {
+            let (l, s, r, vv, e) = x.clone().into_parts();
+            match e.parse::<ExtensionsMap>() {
+                Ok(em) => y = Locale::from_parts(l, s, r, &vv, Some(em)),
+                Err(_) => return Err("extparsefail"),
+            }
+        }
+        3 => match Locale::from_bytes(x.to_string().as_bytes()) {
+            Ok(z) => y = z,
+            Err(_) => return Err("reparsefail"),
+        },
+        4 => {
+            let li: LanguageIdentifier = x.clone().into();
+            y = Locale::from(li);
+            y.extensions = x.extensions.clone();
+        }
+        5 => {
+            let u = &x.extensions.unicode;
+            let attrs: Vec<String> = u.attributes().map(|s| s.to_string()).collect();
+            for a in &attrs {
+                let _ = y.extensions.unicode.remove_attribute(a);
+            }
+            for a in attrs.iter().rev() {
+                let _ = y.extensions.unicode.set_attribute(a);
+            }
+            let keys: Vec<String> = u.keyword_keys().map(|s| s.to_string()).collect();
+            for k in keys.iter().rev() {
+                let vals: Vec<String> = u.keyword(k).map(|it| it.map(|s| s.to_string()).collect()).unwrap_or_default();
+                let _ = y.extensions.unicode.remove_keyword(k);
+                let _ = y.extensions.unicode.set_keyword(k.clone(), &vals);
+            }
+            let t = &x.extensions.transform;
+            let tkeys: Vec<String> = t.tfield_keys().map(|s| s.to_string()).collect();
+            for k in tkeys.iter().rev() {
+                let vals: Vec<String> = t.tfield(k).map(|it| it.map(|s| s.to_string()).collect()).unwrap_or_default();
+                let _ = y.extensions.transform.remove_tfield(k);
+                let _ = y.extensions.transform.set_tfield(k.clone(), &vals);
+            }
+            if let Some(tl) = t.tlang() {
+                y.extensions.transform.clear_tlang();
+                let _ = y.extensions.transform.set_tlang(tl.to_string().parse().unwrap());
+            }
+            let tags: Vec<String> = x.extensions.private.tags().map(|s| s.to_string()).collect();
+            y.extensions.private.clear_tags();
+            for t in tags.iter().rev() {
+                let _ = y.extensions.private.add_tag(t);
+            }
+        }
+        6 => {
+            y.id.language = x.id.language.as_str().parse().unwrap();
+            y.id.script = x.id.script.map(|s| s.as_str().parse().unwrap());
+            y.id.region = x.id.region.map(|s| s.as_str().parse().unwrap());
+        }
+        _ => {
+            let mut vv: Vec<Variant> = vs.iter().rev().cloned().collect();
+            vv.extend(vs.iter().cloned());
+            y = Locale::from_parts(x.id.language, x.id.script, x.id.region, &vv, Some(x.extensions.clone()));
+        }
+    }
+    Ok(y)
+}
+
+/// Values built by the compile-time macros, for a fixed list of literals (the macros run inside rustc, so the list is
+/// fixed when the harness is compiled; arbitrary literals are the business of the generated programs of C16).
+#[cfg(feature = "macros")]
+pub fn macro_values() -> Vec<(&'static str, Locale, Option<LanguageIdentifier>)> {
+    macro_rules! mv {
+        ($($l:literal),* $(,)?) => { vec![$(($l, unic_locale::locale!($l), Some(unic_langid::langid!($l)))),*] };
+    }
+    macro_rules! mvl {
+        ($($l:literal),* $(,)?) => { vec![$(($l, unic_locale::locale!($l), None)),*] };
+    }
+    let mut v = mv![
+        "und", "UND", "und-US", "und-Latn", "Und_latn_us", "en", "EN", "en-US", "en_us", "en-Latn", "en-Latn-US", "fil", "abcde",
+        "abcdefgh", "es-419", "und-419", "ca-ES-valencia", "ca-valencia", "sl-rozaj-biske", "sl-biske-rozaj", "sl-rozaj-solba",
+        "sl-rozaj-rozaj", "de-1996", "de-DE-1996", "de-1996-1901", "frm-1606nict", "en-macos-valencia-1996", "zh-Hant-TW", "sr-Cyrl-RS-ekavsk",
+    ];
+    v.extend(mvl![
+        "en-u-ca-buddhist", "en-US-u-hc-h12", "en-t-h0-hybrid", "en-t-es-AR", "en-t-es-AR-h0-hybrid-u-ca-buddhist-x-priv", "en-x-a",
+        "en-x-foo-bar", "und-x-a", "und-u-attr", "en-u-kn-true", "en-t-h0-true", "sl-rozaj-biske-u-ca-gregory", "en-u-foo-bar-ca-buddhist-nu-latn",
+        "EN_u_CA_Buddhist", "en-t-sl-rozaj-biske-h0-hybrid", "und-Latn-t-und-latn",
+    ]);
+    v
+}
+
+#[cfg(feature = "macros")]
+fn macrel(a: &[&str]) -> String {
+    // `macrel <index> <literal>`: the macro-built value of literal #index against the run-time parse of the same literal
+    let idx: usize = match a.first().and_then(|s| s.parse().ok()) {
+        Some(i) => i,
+        None => return "bad".to_string(),
+    };
+    let vals = macro_values();
+    let (lit, m, mli) = match vals.get(idx) {
+        Some(t) => t,
+        None => return "bad".to_string(),
+    };
+    if a.get(1).and_then(|s| unhex(s)).map_or(true, |h| h != lit.as_bytes()) {
+        return "bad".to_string();
+    }
+    let p = match Locale::from_bytes(lit.as_bytes()) {
+        Ok(p) => p,
+        Err(_) => return "ok parsefail".to_string(),
+    };
+    let li = match mli {
+        Some(x) => format!(
+            " lieq={} licmp={} lihe={} lim={}{}",
+            b(*x == p.id),
+            ord(x.cmp(&p.id)),
+            b(hash_of(x) == hash_of(&p.id)),
+            b(x.matches(&p.id, false, false)),
+            b(p.id.matches(x, true, false) == p.id.matches(&p.id, true, false))
+        ),
+        None => String::new(),
+    };
+    format!(
+        "ok eq={} cmp={} he={} se={} m={}{}{} ideq={}{}",
+        b(*m == p),
+        ord(m.cmp(&p)),
+        b(hash_of(m) == hash_of(&p)),
+        b(m.to_string() == p.to_string()),
+        b(m.matches(&p, false, false) == p.matches(&p, false, false)),
+        b(m.matches(&p, true, false) == p.matches(&p, true, false)),
+        b(p.matches(m, false, true) == p.matches(&p, false, true)),
+        b(m.id == p.id),
+        li
+    )
+}
+
+#[cfg(not(feature = "macros"))]
+fn macrel(_a: &[&str]) -> String {
+    "na".to_string()
+}
+
 fn answer_inner(line: &str) -> String {
     let mut parts = line.split(' ');
     let op = parts.next().unwrap_or("");
@@ -461,73 +605,10 @@ fn answer_inner(line: &str) -> String {
                 Ok(x) => x,
                 Err(e) => return loc_err(&e).to_string(),
             };
-            let vs: Vec<Variant> = x.id.variants().cloned().collect();
-            let mut y = x.clone();
-            match k {
-                0 => y.id.set_variants(&vs),
-                1 => {
-                    y.id.clear_variants();
-                    y.id.set_variants(&vs);
-                }
-                2 => {
-                    let (l, s, r, vv, e) = x.clone().into_parts();
-                    match e.parse::<ExtensionsMap>() {
-                        Ok(em) => y = Locale::from_parts(l, s, r, &vv, Some(em)),
-                        Err(_) => return "ok extparsefail".to_string(),
-                    }
-                }
-                3 => match Locale::from_bytes(x.to_string().as_bytes()) {
-                    Ok(z) => y = z,
-                    Err(_) => return "ok reparsefail".to_string(),
-                },
-                4 => {
-                    let li: LanguageIdentifier = x.clone().into();
-                    y = Locale::from(li);
-                    y.extensions = x.extensions.clone();
-                }
-                5 => {
-                    let u = &x.extensions.unicode;
-                    let attrs: Vec<String> = u.attributes().map(|s| s.to_string()).collect();
-                    for a in &attrs {
-                        let _ = y.extensions.unicode.remove_attribute(a);
-                    }
-                    for a in attrs.iter().rev() {
-                        let _ = y.extensions.unicode.set_attribute(a);
-                    }
-                    let keys: Vec<String> = u.keyword_keys().map(|s| s.to_string()).collect();
-                    for k in keys.iter().rev() {
-                        let vals: Vec<String> = u.keyword(k).map(|it| it.map(|s| s.to_string()).collect()).unwrap_or_default();
-                        let _ = y.extensions.unicode.remove_keyword(k);
-                        let _ = y.extensions.unicode.set_keyword(k.clone(), &vals);
-                    }
-                    let t = &x.extensions.transform;
-                    let tkeys: Vec<String> = t.tfield_keys().map(|s| s.to_string()).collect();
-                    for k in tkeys.iter().rev() {
-                        let vals: Vec<String> = t.tfield(k).map(|it| it.map(|s| s.to_string()).collect()).unwrap_or_default();
-                        let _ = y.extensions.transform.remove_tfield(k);
-                        let _ = y.extensions.transform.set_tfield(k.clone(), &vals);
-                    }
-                    if let Some(tl) = t.tlang() {
-                        y.extensions.transform.clear_tlang();
-                        let _ = y.extensions.transform.set_tlang(tl.to_string().parse().unwrap());
-                    }
-                    let tags: Vec<String> = x.extensions.private.tags().map(|s| s.to_string()).collect();
-                    y.extensions.private.clear_tags();
-                    for t in tags.iter().rev() {
-                        let _ = y.extensions.private.add_tag(t);
-                    }
-                }
-                6 => {
-                    y.id.language = x.id.language.as_str().parse().unwrap();
-                    y.id.script = x.id.script.map(|s| s.as_str().parse().unwrap());
-                    y.id.region = x.id.region.map(|s| s.as_str().parse().unwrap());
-                }
-                _ => {
-                    let mut vv: Vec<Variant> = vs.iter().rev().cloned().collect();
-                    vv.extend(vs.iter().cloned());
-                    y = Locale::from_parts(x.id.language, x.id.script, x.id.region, &vv, Some(x.extensions.clone()));
-                }
-            }
+            let y = match route_value(&x, k) {
+                Ok(y) => y,
+                Err(e) => return format!("ok {}", e),
+            };
             format!(
                 "ok eq={} cmp={} he={} se={}",
                 b(x == y),
@@ -536,6 +617,25 @@ fn answer_inner(line: &str) -> String {
                 b(x.to_string() == y.to_string())
             )
         }
+        "matchr" => {
+            // `matchr <x> <y> <ra> <rb> <k>`: matches() with the left operand rebuilt along route k
+            let (xv, yv) = (arg!(0), arg!(1));
+            let (ra, rb) = (flag(a.get(2).unwrap_or(&"0")), flag(a.get(3).unwrap_or(&"0")));
+            let k: u32 = a.get(4).and_then(|s| s.parse().ok()).unwrap_or(0);
+            match (Locale::from_bytes(&xv), Locale::from_bytes(&yv)) {
+                (Ok(x), Ok(y)) => match route_value(&x, k) {
+                    Ok(x2) => format!(
+                        "ok {} {} {}",
+                        b(x2.matches(&y, ra, rb)),
+                        b(x2.id.matches(&y.id, ra, rb)),
+                        b(y.matches(&x2, rb, ra))
+                    ),
+                    Err(e) => format!("ok {}", e),
+                },
+                _ => "err".to_string(),
+            }
+        }
+        "macrel" => macrel(&a),
         "eqstr" => {
             let x = arg!(0);
             let y = arg!(1);
